@@ -6,7 +6,7 @@ from ..harness import build, cref, run_paths, exc_name, exc_origin
 from ..evalengine import pmap
 from ..objengine import tree_equal, make_point_concrete
 from ..derivengine import obj_to_tree
-from ..values import SymNum
+from ..values import SymNum, Obj
 from .. import spec
 
 OPS = {"neg": None, "+": "Add", "-": "Sub", "*": "Mult", "/": "Div", "**": "Pow"}
@@ -25,6 +25,9 @@ def op_case(args):
             return build(it, v, {})
         if v == "POINT":
             return make_point_concrete(it, {})
+        if v == "REFLECTING":
+            from ..values import ForeignReflecting
+            return ForeignReflecting()
         if isinstance(v, tuple) and v and v[0] == "REFLECTED":
             return v
         return lift(v)
@@ -39,6 +42,8 @@ def op_case(args):
                 r = it.binop(OPS[op], lift(bv[1]), a)
             else:
                 r = it.binop(OPS[op], a, bv)
+        if not isinstance(r, Obj):
+            return ("NOT-AN-EXPRESSION", repr(r)), repr(r)
         t = obj_to_tree(it, r)
         # the operator result must also compare equal to the constructor-built object
         return t, it.to_repr(r)
@@ -73,14 +78,14 @@ def check(rep):
             cases.append(("**", a, k, ("NthPower", a, int(k))))
     bad_exponents = [0, -1, -3, 2.5, 0.5, -2.0, 0.0, math.inf, "2", None, "POINT",
                      2.000000001, 1.9999999999999998, 2.0000000000001, 3 - 1e-12, 1e-15 + 1]
-    bad_operands = [3, 2.5, "x", None, "POINT", 0, 1]
+    bad_operands = [3, 2.5, "x", None, "POINT", 0, 1, "REFLECTING"]
     for a in operands[:3]:
-        for e in bad_exponents:
+        for e in bad_exponents + ["REFLECTING"]:
             cases.append(("**", a, e, None))
         for op in ("+", "-", "*", "/"):
             for b in bad_operands:
                 cases.append((op, a, b, None))
-                if b not in ("POINT",):
+                if b not in ("POINT", "REFLECTING"):
                     cases.append((op, a, ("REFLECTED", b), None))
         for b in (3, 2.0):
             cases.append(("**", a, ("REFLECTED", b), None))
@@ -92,7 +97,8 @@ def check(rep):
         key = (construct, "builds" if want else "rejects")
         d = per.setdefault(key, [0, 0])
         d[0] += 1
-        shown_b = spec.show(b) if isinstance(b, tuple) and b and b[0] in spec.ALL_CLASSES else repr(b)
+        shown_b = spec.show(b) if isinstance(b, tuple) and b and b[0] in spec.ALL_CLASSES else (
+            "<a foreign object whose class implements permissive reflected operators>" if b == "REFLECTING" else repr(b))
         desc = f"-({spec.show(a)})" if op == "neg" else (
             f"{b[1]!r} {op} ({spec.show(a)})" if isinstance(b, tuple) and b and b[0] == "REFLECTED"
             else f"({spec.show(a)}) {op} {shown_b}")
